@@ -15,6 +15,7 @@ import (
 	"rare/pkg/matchers/fastregex"
 	"rare/pkg/multiterm"
 	"rare/pkg/multiterm/termunicode"
+	"rare/pkg/verifhook"
 
 	"github.com/urfave/cli/v2"
 )
@@ -151,9 +152,11 @@ func main() {
 		if msg := err.Error(); msg != "" {
 			logger.Print(msg)
 		}
+		verifhook.Flush()
 		if v, ok := err.(cli.ExitCoder); ok {
 			os.Exit(v.ExitCode())
 		}
 		os.Exit(helpers.ExitCodeInvalidUsage)
 	}
+	verifhook.Flush()
 }
